@@ -1392,6 +1392,35 @@ def section_round7(ctx, r, corr):
         corr.add(f'tinit {tn} 0 {int(agg)} ; ' + '|'.join('@'.join(map(str, t)) for t in rec(childss)),
                  'err' if out is None else 'ok ' + '|'.join('@'.join(map(str, t)) for t in rec(out)), site, src + call)
 
+    # ---- (d) ExactPolySolver.sample_poly / ExactSolver.sample as coded: rows in record order against `exactRows`
+    def ordered(ss):
+        labels = list(ss.variables)
+        return '|'.join(','.join(sorted(f'{lab(v)}={rat(fr(x))}' for v, x in zip(labels, row))) + '@' + rat(fr(e))
+                        for row, e in zip(ss.record.sample, ss.record.energy))
+    for pi in range(ctx.scale(400, 6000)):
+        # `vars` of the model = list(problem.variables) of the very object handed to the solver (the gray-code column order);
+        # the sample set may present its columns in another (sorted) order, so rows are compared by label
+        if r.random() < .5:
+            prob = PolyProblem(r)
+            obj = prob.poly()
+            ss = dimod.ExactPolySolver().sample_poly(obj)
+            call, site = 'dimod.ExactPolySolver().sample_poly(POLY)', 'ExactPolySolver.sample_poly'
+            line = f"xsolve {int(prob.spin)} poly ; {','.join(lab(v) for v in obj.variables) or '-'} ; {prob.wire()}"
+        else:
+            prob = BqmProblem(r, nmax=4)
+            obj = prob.bqm()
+            ss = dimod.ExactSolver().sample(obj)
+            call, site = 'dimod.ExactSolver().sample(BQM)', 'ExactSolver.sample'
+            line = f"xsolve {int(prob.spin)} bqm ; {','.join(lab(v) for v in obj.variables) or '-'} ; " + wire_bqm(prob)
+        n = len(prob.labels)
+        ctx.case(('xsolve', pi, site, n), nontrivial=n > 0); ctx.tick(f'r7:xsolve {site}' + (' n=0' if n == 0 else ''))
+        if not validate(ctx, ss, prob, site, f'{prob.vartype} as coded', prob.src(), call, exact=prob.labels if n else None):
+            continue
+        if n == 0 and len(ss) != 0:
+            ctx.fail('property', site, 'no variables', f'{len(ss)} rows for a problem without variables', repro=PRE + prob.src() + f'assert len({call}) == 0\n')
+            continue
+        corr.add(line, ordered(ss), site, prob.src() + call)
+
 
 def run(ctx):
     r = ctx.rng
